@@ -631,6 +631,18 @@ func TestC19Direct(t *testing.T) {
 			for i := 0; i < 2; i++ {
 				foreignIDs = append(foreignIDs, c.a.NewInstance(other.Name))
 			}
+			// the other group may be registered with the same provider object (escalator manages both)
+			if rapid.Bool().Draw(rt, "siblingRegistered") {
+				p2, err := awsprov.VerifNewCloudProvider(c.a.AutoScaling(), c.a.EC2(), cfg, cloudprovider.NodeGroupConfig{Name: "other", GroupID: other.Name})
+				if err != nil {
+					rt.Fatalf("harness: %v", err)
+				}
+				ng2, ok := p2.GetNodeGroup(cfg.GroupID)
+				if !ok {
+					rt.Fatalf("harness: group not registered")
+				}
+				c.prov, c.ng = p2, ng2
+			}
 			nodeFor := func(inst *sim.Instance, name string) *v1.Node {
 				return &v1.Node{ObjectMeta: metav1.ObjectMeta{Name: name}, Spec: v1.NodeSpec{ProviderID: inst.ProviderID()}}
 			}
